@@ -381,3 +381,105 @@ def app_traj_scenario(ctx):
         if (algo == 'kcenters' or n_iters == 0) and tie_free:
             require(np.array_equal(a_flat, serial.assignments) and P.same_dist(d_flat, serial.distances), 'differs_from_serial',
                     lambda: 'labels / distances written by %d ranks differ from the serial library run' % N)
+
+
+# ---------------------------------------------------------------- k-medoids through the front end, with a restart
+def app_kmedoids_scenario(ctx):
+    """`--algorithm kmedoids`: a cold start in one process, then a restart from the files it wrote (`--init-center-inds`,
+    `--init-assignments`, `--init-distances`) on N simulated ranks.  Every set of output files must decode to a
+    self-consistent clustering, and the restart must not be worse than what it started from."""
+    t = ctx.tape
+    e = C.E()
+    from enspara.apps import cluster as capp
+    ra = e['ra']
+    P = C.Problem(ctx, max_ranks=4, max_frames=36, dtype=t.choice(('float64', 'float32')), metric=t.choice(('euclidean', 'manhattan')))
+    if len(set(P.lengths)) == 1 and len(P.lengths) > 1:
+        # trajectories of unequal length only: for equal lengths the front end writes rectangular arrays (one HDF5 node) and
+        # its own restart then reads that node as ONE trajectory and fails - a defect of the restart plumbing at HEAD that
+        # none of the listed properties covers (noted in DESIGN.md section 13)
+        P.lengths[0] += 1 if P.lengths[0] > 1 else 0
+        if len(set(P.lengths)) == 1:
+            P.lengths[-1] += 1
+        P.n = int(sum(P.lengths))
+        P.X = M.gen_points(t, P.n, P.dim, P.dtype, P.jitter)
+        P.l2g = M.local_to_global(P.lengths, P.N)
+    if len(P.lengths) < 2 or P.n < 4:
+        ctx.count('kmedoids_app_too_small')
+        return
+    K = t.irange(1, min(5, P.n - 1))
+    d = ctx.scratch()
+    starts = np.concatenate([[0], np.cumsum(P.lengths)[:-1]]).astype(int)
+    rows = [P.X[s:s + L] for s, L in zip(starts, P.lengths)]
+    feats = []
+    for i, r in enumerate(rows):
+        fn = os.path.join(d, 'feat%02d.npy' % i)
+        np.save(fn, r)
+        feats.append(fn)
+
+    def outs(tag):
+        return dict(dist=os.path.join(d, tag + '-dist.h5'), assig=os.path.join(d, tag + '-assig.h5'),
+                    ctr=os.path.join(d, tag + '-centers.npy'), inds=os.path.join(d, tag + '-inds.npy'))
+
+    def argv_for(o, iters, init=None):
+        a = ['cluster', '--features'] + feats + ['--algorithm', 'kmedoids', '--cluster-distance', P.metric_name, '--cluster-number', str(K),
+                                                '--cluster-iterations', str(iters), '--distances', o['dist'], '--assignments', o['assig'],
+                                                '--center-features', o['ctr'], '--center-indices', o['inds']]
+        if init is not None:
+            a += ['--init-center-inds', init['inds'], '--init-assignments', init['assig'], '--init-distances', init['dist']]
+        return a
+
+    def decode(o, where):
+        for key, path in o.items():
+            require(os.path.exists(path), 'output_missing', lambda: '%s: no %s file' % (where, key))
+        inds = np.load(o['inds'], allow_pickle=True)
+        ctrs = np.load(o['ctr'], allow_pickle=True)
+        dist = ra.load(o['dist'])
+        assig = ra.load(o['assig'])
+        require(hasattr(dist, 'lengths') and [int(v) for v in dist.lengths] == list(map(int, P.lengths)), 'output_lengths',
+                lambda: '%s: distances file rows %s, trajectories %s' % (where, getattr(dist, 'lengths', None), list(P.lengths)))
+        d_flat, a_flat = np.asarray(dist._data, dtype=float), np.asarray(assig._data).astype(int)
+        gi = []
+        for tr, fr in inds:
+            require(0 <= tr < len(P.lengths) and 0 <= fr < P.lengths[int(tr)], 'center_index_wrong',
+                    lambda: '%s: centre (%s, %s) outside trajectory lengths %s' % (where, tr, fr, list(P.lengths)))
+            gi.append(int(starts[int(tr)] + int(fr)))
+        M.check_consistent(P.X, P.metric_name, gi, [np.asarray(c) for c in ctrs], a_flat, d_flat, where=where, allow_dup_centers=True)
+        require(len(gi) == K, 'cluster_count_changed', lambda: '%s: %d clusters, %d asked for' % (where, len(gi), K))
+        D = np.array([P.model_metric(P.X, P.X[c]) for c in gi])
+        own = D[a_flat, np.arange(P.n)]
+        return gi, float(np.mean(own * own))
+
+    def run(argv, N):
+        old_mode = capp.mpi_mode
+        capp.mpi_mode = N > 1
+        try:
+            with write_guard(ctx, d) as writers:
+                w = C.make_world(ctx, N, 0, suffix='k%d' % N)
+                rcs = w.run(lambda r: capp.main(list(argv)))
+        finally:
+            capp.mpi_mode = old_mode
+        st = w.stats()
+        ctx.steps += st['collectives'] + st['decisions']
+        ctx.fp(tuple(w.sched_trace))
+        if st['decisions'] > 0 and N >= 2:
+            ctx.nontrivial = True
+        require(all(rc == 0 for rc in rcs), 'app_failed', lambda: 'main() returned %s' % rcs)
+        bad_writers = sorted({(r, f) for r, f in writers if r != 0})
+        require(not bad_writers, 'non_root_rank_wrote_output', lambda: 'ranks other than 0 opened for writing: %s' % bad_writers[:6])
+
+    it1, it2 = t.irange(1, 2), t.irange(1, 2)
+    ctx.scenario.update(P.describe(), family='app_kmedoids', n_clusters=K, iterations=[it1, it2], restart_ranks=P.N)
+    ctx.fp('app_km', P.N, tuple(P.lengths), P.dtype, P.metric_name, K, it1, it2, P.X.tobytes())
+    o1 = outs('cold')
+    np.random.seed(t.draw(2 ** 31 - 1))
+    run(argv_for(o1, it1), 1)
+    gi1, cost1 = decode(o1, 'k-medoids front end, cold start:')
+    o2 = outs('restart')
+    np.random.seed(t.draw(2 ** 31 - 1))
+    run(argv_for(o2, it2, init=o1), P.N)
+    gi2, cost2 = decode(o2, 'k-medoids front end, restart on %d ranks:' % P.N)
+    require(cost2 <= cost1 * (1 + M.rtol_for(P.dtype) * 8) + 1e-300, 'cost_increased',
+            lambda: 'restart from the files of the first run raised the cost %.17g -> %.17g' % (cost1, cost2))
+    ctx.hit('app_kmedoids_restart')
+    if P.N >= 2:
+        ctx.hit('app_kmedoids_restart_mpi')
